@@ -104,9 +104,16 @@ package taint
 //    look for the functions reading it (ReachableFunctions scan that builds their
 //    summaries) whatever the summarisation mode -- a global-access node that is not
 //    a read (its out-edges are not followed) has run that scan.
+// On-demand summarisation leaves the summary built (RunIntraProcedural marks the graph
+// Constructed or the function panics) -- assumed, the builder is not under contract.
+//@ func Visitor.onDemandIntraProcedural
+//@   property C05
+//@   assumed
+//@   ensures summary.Constructed
+
 //@ func Visitor.Visit
 //@   loops 31
-//@   property C02 C01 C05
+//@   property C02 C01 C05 C13
 //@   option havoc:*
 //@   requires v != nil && s != nil
 //@   loop 1 body sanitizer_stops: called(isSanitizer, _, _, _) && retof(isSanitizer, _, _, _) ==> !called(addNext, _, _, _, _, _, _, _, _)
@@ -119,6 +126,9 @@ package taint
 //@   loop 1 body synthetic_out_edges: istype(cur.Node, *dataflow.SyntheticNode) && expanded() ==> called(SyntheticNode.Out, _)
 //@   loop 1 body return_pops_call_stack: istype(cur.Node, *dataflow.ReturnValNode) && called(dataflow.UnwindCallstackFromCallee, _, _) && retof(dataflow.UnwindCallstackFromCallee, _, _) != nil ==> !called(addNext, _, _, _, _, _, where(x, x.Trace != cur.Trace.Parent), _, _)
 //@   loop 1 body global_write_drops_call_stack: istype(cur.Node, *dataflow.AccessGlobalNode) && !called(AccessGlobalNode.Out, _) ==> !called(addNext, _, _, _, _, _, where(x, x.Trace != nil), _, _)
+//@   option keep:onDemandIntraProcedural
+//@   loop 1 body no_out_edges_of_unbuilt_caller: istype(cur.Node, *dataflow.ParamNode) ==> !called(CallNodeArg.Out, where(n, !ignoreNonSummarized && !n.parent.parent.Constructed))
+//@   loop 1 entry escape_info_initialised: s.Config.UseEscapeAnalysis ==> called(initEscapeAnalysisInfo, v, s, _)
 //@   loop 1 body filtered_not_reported: called(isFiltered, _, _, _) && retof(isFiltered, _, _, _) ==> !called(addNext, _, _, _, _, _, _, _, _) && !called(addNewPathCandidate, _, _, _)
 
 // ---------------------------------------------------------------------------
@@ -126,6 +136,16 @@ package taint
 // of its function has been computed and its instructions checked
 // (manageEscapeContexts), whatever the other stop conditions say; and the traversal
 // of a source starts by computing the escape information of the source's function.
+// The source node itself is never a "next" node: its own instructions are checked
+// against the locality information when the traversal of the source is set up --
+// whatever kind of node the source is (a call, a field read, a channel receive, ...).
+//@ func Visitor.initEscapeAnalysisInfo
+//@   property C13
+//@   option havoc:*
+//@   requires v != nil && s != nil
+//@   ensures source_context_stored: called(storeEscapeGraphInContext, v, s, _, _, _)
+//@   ensures source_node_checked: called(checkEscape, v, s, source.Node, _)
+
 //@ func Visitor.addNext
 //@   property C13
 //@   option havoc:manageEscapeContexts
